@@ -242,7 +242,7 @@ func c05panicSite(stack string) string {
 			after = true
 			continue
 		}
-		if !after || !strings.HasPrefix(ln, "github.com/spikeekips/mitum/isaac/states.") || strings.Contains(ln, "c05") {
+		if !after || !strings.HasPrefix(ln, "github.com/spikeekips/mitum/isaac/states.") || strings.HasPrefix(ln, "github.com/spikeekips/mitum/isaac/states.c05") {
 			continue
 		}
 		f := strings.TrimPrefix(ln, "github.com/spikeekips/mitum/isaac/states.")
